@@ -138,7 +138,21 @@ class SendPaths:
                 c = fn.get("def")
                 p = fn.get("path") or ""
                 if c is not None and c == self.record_def:
-                    self.records.append((Site(b, blk.idx), [f.ty(t) for t in fn["targs"]], [tr.norm(a) for a in tr.call_args(blk.idx)], blk.term["args"]))
+                    # arguments in the canonical order (identity, reason, operation, ..) whatever the recorder's own parameter
+                    # order is (`reason.record::<M>(identity, op)` has the reason first): chosen by parameter type
+                    ats = [tr.norm(a) for a in tr.call_args(blk.idx)]
+                    ops_ = list(blk.term["args"])
+                    ins = [f.ty(t) for t in f.fns[c]["inputs"]] if c in f.fns else []
+                    if len(ins) == len(ats):
+                        def pos(pred):
+                            ix = [i for i, t in enumerate(ins) if pred(t.peel_refs())]
+                            return ix[0] if len(ix) == 1 else None
+                        order = [pos(lambda t: t.is_adt("Identity")), pos(lambda t: t.is_adt("dead_letter::DeadLetterReason")), pos(lambda t: t.k == "str" or t.s.endswith("str"))]
+                        if all(i is not None for i in order) and len(set(order)) == 3:
+                            order += [i for i in range(len(ats)) if i not in order]
+                            ats = [ats[i] for i in order]
+                            ops_ = [ops_[i] for i in order]
+                    self.records.append((Site(b, blk.idx), [f.ty(t) for t in fn["targs"]], ats, ops_))
                 elif p in ("tokio::time::timeout::timeout", "tokio::time::timeout::timeout_at"):
                     self.timeouts.append(Site(b, blk.idx))
                 elif p == "tokio::sync::oneshot::channel":
